@@ -719,7 +719,9 @@ pub fn leading_returns(g: &Grammar) -> Vec<String> {
 pub fn crossing_shapes(g: &Grammar) -> Vec<String> {
     fn walk(r: &Regex, open: &mut Vec<u32>, try_depth_markers: &mut Vec<usize>, in_try: bool, created_later: &dyn Fn(u32) -> bool, out: &mut Vec<String>) {
         match r {
-            Regex::Marker(n) => open.push(*n),
+            // a marker that no creation refers to holds a position nobody reads
+            Regex::Marker(n) if created_later(*n) => open.push(*n),
+            Regex::Marker(_) => {}
             Regex::Create(None, _) => {
                 if !open.is_empty() {
                     out.push(format!("unindexed creation while marker <{} is open", open.last().unwrap()));
